@@ -91,6 +91,55 @@ theorem Src_update_host (L : Layout) (s : State) (h : StateOk L s) (a : Addr) (r
         simp [hne']
   · right; exact ha
 
+/-- `vectorize` with the optional `vector` argument passed a zero row (as `State.tensorize` does) is `vectorize` -/
+theorem Src_vectorize_into (L : Layout) (r : Row) :
+    SrcObs.HostVector.vectorize_into L r (zeros L.stateSize) = SrcObs.HostVector.vectorize L r := rfl
+
+/-- `State.tensorize`: the tensor of the state built from the scenario's hosts is the list of their documented
+encodings, and its `host_num_map` numbers the address space — the raw arrays of the model state -/
+theorem Src_tensorize (L : Layout) (rows : List Row) (hwf : WF rows) (hfit : ∀ r ∈ rows, RowWF L r) :
+    SrcObs.State.tensorize L rows = rawOf L rows := by
+  unfold SrcObs.State.tensorize
+  simp only [Src_vector_idxs]
+  have hnm : PyRt.numMapOf rows = (rawOf L rows).host_num_map := rfl
+  have hb : ∀ (l : List (Addr × Row)) (T : List (List Int)),
+      PyRt.forEach (β := Empty) l T (fun x tensor =>
+        match x with
+        | (host_addr, host) =>
+          PyRt.Ctl.next (tensor.set (PyRt.numMapGet (PyRt.numMapOf rows) host_addr)
+            (SrcObs.HostVector.vectorize_into L host (PyRt.row tensor (PyRt.numMapGet (PyRt.numMapOf rows) host_addr))))) =
+      .next (l.foldl (fun tensor x => tensor.set (PyRt.numMapGet (PyRt.numMapOf rows) x.1)
+        (SrcObs.HostVector.vectorize_into L x.2 (PyRt.row tensor (PyRt.numMapGet (PyRt.numMapOf rows) x.1)))) T) := by
+    intro l T
+    rw [← forEach_next]
+  simp only [hb]
+  have key : ∀ (pre post : List Row) (T : List (List Int)), rows = pre ++ post →
+      T = pre.map (encodeRow L) ++ List.replicate post.length (zeros L.stateSize) →
+      (PyRt.hostItems post).foldl (fun tensor x => tensor.set (PyRt.numMapGet (PyRt.numMapOf rows) x.1)
+        (SrcObs.HostVector.vectorize_into L x.2 (PyRt.row tensor (PyRt.numMapGet (PyRt.numMapOf rows) x.1)))) T =
+      rows.map (encodeRow L) := by
+    intro pre post
+    induction post generalizing pre with
+    | nil => intro T hs hT; simp [PyRt.hostItems, hT, hs]
+    | cons x xs ih =>
+      intro T hs hT
+      simp only [PyRt.hostItems, List.map_cons, List.foldl_cons]
+      have hx : rows[pre.length]? = some x := by rw [hs]; simp
+      have hidx : PyRt.numMapGet (PyRt.numMapOf rows) x.addr = pre.length := by
+        rw [hnm]; exact numMapGet_rawOf L rows hwf _ x hx
+      have hrow : PyRt.row T pre.length = zeros L.stateSize := by
+        rw [hT]; simp [PyRt.row, List.getD_eq_getElem?_getD]
+      have hv : SrcObs.HostVector.vectorize_into L x (zeros L.stateSize) = encodeRow L x := by
+        rw [Src_vectorize_into, Src_vectorize, C09_layout_concat L x (hfit x (by rw [hs]; simp))]
+      rw [hidx, hrow, hv]
+      apply ih (pre ++ [x]) _ (by simp [hs])
+      rw [hT, List.set_append_right _ _ (by simp)]
+      simp [List.replicate_succ]
+  have := key [] rows (PyRt.zeros2 (rows.length, L.stateSize)) rfl (by simp [PyRt.zeros2, PyRt.zeros1, zeros])
+  simp only [PyRt.hostItems] at this ⊢
+  rw [this]
+  rfl
+
 /-- the row vocabulary, assembled: getters, setters and the three `is_running_*` tests of the repository, run on the
 documented encoding of a row, are the record reads / writes / flag tests the dynamics world is written over -/
 theorem Src_row_vocabulary (L : Layout) (r : Row) (hwf : RowWF L r) (b : Bool) (n k : Nat) :
